@@ -41,10 +41,12 @@ MODELLED = ('pm/sop.py ParametricMap.__init__ argument checks, _get_pixel_data_t
             'apply_modality_transform / apply_voi_transform (None/True/False) on a parametric map, identity '
             'rescale and LINEAR window branches of __call__ (pixels.apply_voi_window); pm/content.py '
             'RealWorldValueMapping.apply; Image.get_volume of single-channel maps (slice order, unique '
-            'positions); sc/sop.py SCImage validation + frame.encode_frame checks, '
+            'positions) and its sub-range arguments (_standardize_slice_indices, '
+            '_standardize_row_column_indices, as_indices, crop, multi-channel refusal); sc/sop.py SCImage validation + frame.encode_frame checks, '
             'native and bit-packed encoding; the _pixel_array cache of one image object across a sequence of '
             'accesses (pixel_array, get_stored_frame(s), get_frame(s): cache-aware frame lookup, model `session`)')
 STRATA = ['pm_store', 'pm_refuse', 'pm_read', 'pm_read_rw', 'pm_read_flags', 'pm_float_read', 'pm_volume',
+          'pm_volume_sub',
           'rwvm_ctor', 'rwvm_apply', 'sc', 'sc_refuse', 'pm_session']
 NOT_EXECUTED = ['JPEG 2000 (no openjpeg codec installed): only the size/bit-depth refusals are run',
                 'JPEG baseline (lossy) secondary captures: only acceptance/refusal, not pixel equality',
@@ -66,7 +68,9 @@ RULE = ('every array input in several memory layouts (C, Fortran, transposed vie
         'combinations of the three tri-state transform flags every run + random ones biased to consistent flags, '
         'dyadic window centre/width; rwvm_apply: RealWorldValueMapping.apply on signed/unsigned integer arrays of '
         'any shape incl. empty, values at and beyond the mapped range, float arrays for LUTs; pm_volume: shuffled '
-        'regularly spaced planes, with/without real-world values, duplicate positions; sc: bool/uint8/uint16/12-bit mono and '
+        'regularly spaced planes, with/without real-world values, duplicate positions; pm_volume_sub: slice / row / '
+        'column start / end boundary-biased (None, 0, +-1, +-n, +-(n+1), +-(n+2)) in both numbering conventions, '
+        'valid windows in positive / negative / None spelling, up to 5 shuffled planes, multi-channel maps; sc: bool/uint8/uint16/12-bit mono and '
         'RGB/YBR_FULL x transfer syntax; sc_refuse: product of dtype x bits x shape x PI x syntax. '
         'pm_session: maps of 1..18 frames opened eagerly / lazily / in memory (Image.from_dataset with and without '
         'copy), 2..7 accesses on the SAME object with every result observed (pixel_array, get_stored_frame(s), '
@@ -604,6 +608,70 @@ def _volume_case(rng, tier):
     return c
 
 
+def _axis_args(rng, n, valid):
+    """(start, end, as_indices-independent raw values) for one axis of n positions: boundary-biased"""
+    if valid:
+        a = rng.randint(0, n - 1)
+        b = rng.randint(a + 1, n)
+        return a, b          # python indices; converted by the caller
+    pool = [None, None, 0, 1, -1, n, n + 1, n + 2, -n, -n - 1, -n - 2, n - 1, 2, -2]
+    return rng.choice(pool), rng.choice(pool)
+
+
+def _conv(rng, v, n, ai, is_end):
+    """python index v (0 <= v <= n) written as an argument in the convention chosen"""
+    if rng.random() < 0.25 and ((v == 0 and not is_end) or (v == n and is_end)):
+        return None
+    if rng.random() < 0.3 and v - n < 0:
+        return v - n                       # negative form (same in both conventions)
+    return v if ai else v + 1
+
+
+def _volume_sub_case(rng, tier, multi=False, mode=None):
+    N = rng.choice([1, 2, 3, 4, 5])
+    R, C = rng.choice([1, 2, 3, 4, 5]), rng.choice([1, 2, 3, 4])
+    M = rng.choice([2, 3]) if multi else 1
+    c = _pm_case(rng, tier, dtype=rng.choice(['uint8', 'uint16']), ndim=4 if multi else rng.choice([3, 4]), M=M,
+                 ts=rng.choice(['Explicit', 'Implicit', 'RLE']), src_type='series')
+    shape = [N, R, C, M] if len(c['shape']) == 4 else [N, R, C]
+    c['shape'] = shape
+    c['arr'] = _nest(_words(rng, c['dtype'], _shape_size(shape)), shape)
+    c['kind'] = 'pm_volume_sub'
+    x, y, z0 = rng.randint(-80, 80), rng.randint(-80, 80), rng.randint(-40, 40)
+    dz = rng.choice([20, -20, 8])
+    order = list(range(N))
+    if rng.random() < 0.6:
+        rng.shuffle(order)
+    c['src'] = {'type': 'series', 'n': N, 'pos': [[x, y, z0 + k * dz] for k in order]}
+    c['pp'] = None
+    c['dz8'] = abs(dz)
+    c['lazy'] = rng.random() < 0.5
+    c['rw'] = (not multi) and rng.random() < 0.3
+    c['history'] = _history(rng) if rng.random() < 0.3 else []
+    if N > 1 and not multi and rng.random() < 0.06:
+        a, b = rng.sample(range(N), 2)
+        c['src']['pos'][a] = list(c['src']['pos'][b])
+        c['dup'] = True
+    top = (1 << (8 * WIDTH[c['dtype']])) - 1
+    if len(shape) == 4:
+        c['maps'] = {'shape': 'nested', 'items': [[_lin(rng, f'c{j}m0', False, 0, top)] for j in range(M)]}
+    else:
+        c['maps'] = {'shape': 'flat', 'items': [_lin(rng, 'c0m0', False, 0, top)]}
+    ai = rng.random() < 0.5
+    mode = mode or rng.choice(['valid', 'valid', 'valid', 'free', 'slices', 'rows', 'cols'])
+    args = {'ai': ai}
+    for key, n, ax in (('s', N, 'slices'), ('r', R, 'rows'), ('c', C, 'cols')):
+        if mode == 'valid' or (mode != 'free' and mode != ax):
+            a, b = _axis_args(rng, n, True)
+            if mode != 'valid' and rng.random() < 0.5:
+                a, b = 0, n
+            args[key + 's'], args[key + 'e'] = _conv(rng, a, n, ai, False), _conv(rng, b, n, ai, True)
+        else:
+            args[key + 's'], args[key + 'e'] = _axis_args(rng, n, False)
+    c['args'] = args
+    return c
+
+
 def _rwvm_case(rng):
     first = rng.choice([0, 0, 1, 5])
     last = first + rng.randint(0, 6)
@@ -770,6 +838,12 @@ def gen_cases(rng, tier):
         cases.append(_float_read_case(rng, tier))
     for _ in range(15 * k):
         cases.append(_volume_case(rng, tier))
+    # sub-ranges of the volume (slices / rows / columns, both numbering conventions) and multi-channel maps
+    for mode, cnt in (('valid', 24), ('free', 8), ('slices', 12), ('rows', 9), ('cols', 9)):
+        for _ in range(cnt * k):
+            cases.append(_volume_sub_case(rng, tier, mode=mode))
+    for _ in range(6 * k):
+        cases.append(_volume_sub_case(rng, tier, multi=True))
     # one object, many accesses: every request shape x every way of opening, array cached; cold and free ones
     for shape in REQ_SHAPES:
         for mode in OPEN_MODES:
@@ -824,7 +898,7 @@ def gen_cases(rng, tier):
         cases.append(c)
     for c in cases:
         # big-endian 2-byte integers are refused by the constructor: nothing to read back
-        if (c['kind'] in ('pm_read', 'pm_read_rw', 'pm_read_flags', 'pm_volume', 'pm_session')
+        if (c['kind'] in ('pm_read', 'pm_read_rw', 'pm_read_flags', 'pm_volume', 'pm_volume_sub', 'pm_session')
                 and c.get('layout') == 'byteswap'
                 and c['dtype'] == 'uint16'):
             c['layout'] = 'neg'
@@ -1110,6 +1184,19 @@ def _fr(x):
     return [F(float(v)) for v in x.reshape(-1).tolist()]
 
 
+def _py_index(v, ai):
+    """Python index meant by a start/end argument (one-based numbers unless ai; negatives as in Python)"""
+    if v is None:
+        return None
+    return v if (ai or v <= 0) else v - 1
+
+
+def _py_first(st, en, n, ai):
+    """first index selected on an axis of n, by Python's own slicing"""
+    sel = range(n)[slice(_py_index(st, ai), _py_index(en, ai))]
+    return sel[0] if len(sel) else 0
+
+
 def _sel(c):
     return c['sel']
 
@@ -1155,7 +1242,7 @@ def _run_impl(c):
             arr = np.array(c['vals'], dtype=NP[c['dtype']]).reshape(c['shape'])
             return _fr(_mk_mapping(c['map']).apply(arr))
         return catch(ap)
-    if k in ('pm_read', 'pm_read_rw', 'pm_read_flags', 'pm_float_read', 'pm_volume'):
+    if k in ('pm_read', 'pm_read_rw', 'pm_read_flags', 'pm_float_read', 'pm_volume', 'pm_volume_sub'):
         pm = _pm_ctor(c)
         im = _image(pm, c['lazy'])
         nf = int(pm.NumberOfFrames)
@@ -1173,6 +1260,24 @@ def _run_impl(c):
                                 _fr(v.array[s]) if c['rw'] else _to_words(v.array[s])])
                 return out
             return catch(vol)
+        if k == 'pm_volume_sub':
+            def volsub():
+                a = c['args']
+                kw = (dict(apply_real_world_transform=True) if c['rw'] else
+                      dict(apply_real_world_transform=False, dtype=NP[c['dtype']]))
+                v = im.get_volume(slice_start=a['ss'], slice_end=a['se'], row_start=a['rs'], row_end=a['re'],
+                                  column_start=a['cs'], column_end=a['ce'], as_indices=a['ai'], **kw)
+                arr = np.asarray(v.array)
+                aff = np.asarray(v.affine)
+                r0 = _py_first(a['rs'], a['re'], int(pm.Rows), a['ai'])
+                c0 = _py_first(a['cs'], a['ce'], int(pm.Columns), a['ai'])
+                out = []
+                for s_ in range(arr.shape[0]):
+                    # position of pixel (0, 0) of the UNCROPPED slice according to the returned affine
+                    p = aff @ np.array([s_, -r0, -c0, 1.0])
+                    out.append([[_i8(x) for x in p[:3]], _fr(arr[s_]) if c['rw'] else _to_words(arr[s_])])
+                return [[int(arr.shape[1]), int(arr.shape[2])], out]
+            return catch(volsub)
         if k == 'pm_float_read':
             def rd():
                 if c['api'] == 'single':
@@ -1419,6 +1524,22 @@ def coq_term(c):
         else:
             rw = 'None'
         return f'(run_pm_volume {w}%nat {_zl4(c)} {N} {R} {C} {pos} {rw})'
+    if k == 'pm_volume_sub':
+        N, R, C, M = _dims(c)
+        w = WIDTH[c['dtype']]
+        pos = '[' + '; '.join(zl(p) for p in c['src']['pos']) + ']'
+        if c['rw']:
+            m = c['maps']['items'][0][0] if c['maps']['shape'] == 'nested' else c['maps']['items'][0]
+            rw = f'(Some {_mapping_term(m)})'
+        else:
+            rw = 'None'
+        a = c['args']
+
+        def oz(v):
+            return 'None' if v is None else f'(Some {zlit(v)})'
+        args = (f"{{| v_ss := {oz(a['ss'])}; v_se := {oz(a['se'])}; v_rs := {oz(a['rs'])}; v_re := {oz(a['re'])}; "
+                f"v_cs := {oz(a['cs'])}; v_ce := {oz(a['ce'])}; v_ai := {_b(a['ai'])} |}}")
+        return f'(run_pm_volume_sub {w}%nat {_zl4(c)} {N} {R} {C} {M} {pos} {rw} {args})'
     if k == 'rwvm_apply':
         isint = c['dtype'] not in ('float32', 'float64')
         return f"(run_rwvm_apply {_b(isint)} {_mapping_term(c['map'])} {zl(c['vals'])})"
@@ -1636,6 +1757,8 @@ def oracle(c, out):
             elif vals != _to_words(e):
                 return f'volume slice at {p} differs from the input plane there'
         return None
+    if k == 'pm_volume_sub':
+        return _oracle_volume_sub(c, out)
     if k == 'rwvm_ctor':
         lut, sl, ic = c['has_lut'], c['has_slope'], c['has_intercept']
         if lut:
@@ -1665,6 +1788,55 @@ def oracle(c, out):
                 return 'stored PixelData differs from the array bytes'
         return None
     return f'unknown kind {k}'
+
+
+def _axis_valid(st, en, n, ai, start_bound):
+    """documented contract of a start/end pair on an axis of n positions: one-based numbers are never 0,
+    every index designates a position of the axis (end: one beyond), the selection is not empty"""
+    for v in (st, en):
+        if v == 0 and not ai:
+            return False
+    a, b = _py_index(st, ai), _py_index(en, ai)
+    if a is not None and not (-n <= a <= (n - 1 if start_bound else max(n - 1, a))):
+        return False
+    if b is not None and not (-n <= b <= n):
+        return False
+    return len(range(n)[slice(a, b)]) > 0
+
+
+def _oracle_volume_sub(c, out):
+    import numpy as np
+    N, R, C, M = _dims(c)
+    a = c['args']
+    ok = (_axis_valid(a['ss'], a['se'], N, a['ai'], False) and _axis_valid(a['rs'], a['re'], R, a['ai'], True)
+          and _axis_valid(a['cs'], a['ce'], C, a['ai'], True))
+    if c.get('dup') or M > 1:
+        return None if isinstance(out, Err) else 'volume built although several frames share a position'
+    if not ok:
+        return None if isinstance(out, Err) else f'invalid sub-range {a} accepted: {str(out)[:80]}'
+    if isinstance(out, Err):
+        return f'valid sub-range {a} of a regularly spaced map refused: {out}'
+    exp, _ = _expected_frames(c)
+    pos = c['src']['pos']
+    order = sorted(range(N), key=lambda i: -pos[i][2])          # slices by descending z
+    stack = np.stack([exp[i] for i in order])
+    sub = stack[slice(_py_index(a['ss'], a['ai']), _py_index(a['se'], a['ai'])),
+                slice(_py_index(a['rs'], a['ai']), _py_index(a['re'], a['ai'])),
+                slice(_py_index(a['cs'], a['ai']), _py_index(a['ce'], a['ai']))]
+    wantpos = [pos[i] for i in order][slice(_py_index(a['ss'], a['ai']), _py_index(a['se'], a['ai']))]
+    (nr, nc), sl = out
+    if [nr, nc] != list(sub.shape[1:]) or len(sl) != sub.shape[0]:
+        return f'sub-volume of shape {[len(sl), nr, nc]} for {list(sub.shape)}'
+    m = None
+    if c['rw']:
+        m = c['maps']['items'][0][0] if c['maps']['shape'] == 'nested' else c['maps']['items'][0]
+    for t, (p, vals) in enumerate(sl):
+        if p != wantpos[t]:
+            return f'slice {t} of the sub-volume sits at {p}, the requested slice at {wantpos[t]}'
+        want = _ref_mapping(m, sub[t]) if m is not None else _to_words(sub[t])
+        if vals != want:
+            return f'slice {t} of the sub-volume differs from the input plane region'
+    return None
 
 
 def _oracle_stored(exp, M, fs, ai, out):
